@@ -1,12 +1,16 @@
 #!/bin/bash
 # tools/run_seeds.sh [seed-dir ...] — the recorded verdicts: for every seeded change apply its patch to /repo
-# (tools/mutant.sh), run the quick checks listed in its meta.json, restore /repo, and store the result lines in
+# (tools/mutant.sh), run the quick checks listed in its meta.json (OWN_ONLY=1: only the check of the property it breaks), restore /repo, and store the result lines in
 # seeded/<id>/detection.txt. Nothing else may use /repo or /verif/mc while this runs.
 cd "$(dirname "$0")/.." || exit 2
 seeds="$@"; [ -z "$seeds" ] && seeds=$(ls -d seeded/*/)
 for d in $seeds; do
   d=${d%/}
-  ids=$(python3 -c "import json,sys; print(' '.join(json.load(open('$d/meta.json'))['checks_run']))") || continue
+  if [ -n "$OWN_ONLY" ]; then
+    ids=$(python3 -c "import json; print(json.load(open('$d/meta.json'))['breaks_property'])") || continue
+  else
+    ids=$(python3 -c "import json; print(' '.join(json.load(open('$d/meta.json'))['checks_run']))") || continue
+  fi
   echo "== $d ($ids)"
   tools/mutant.sh $d/patch.diff $ids 2>&1 | tee $d/detection.txt
 done
